@@ -23,8 +23,8 @@ PROPS = {
         "level": "model_checking",
         "engine": "explore (bounded-exhaustive enumeration)",
         "technique": "bounded-exhaustive enumeration of raw wire envelopes, pairs, batch compositions and handler completion orders against real server sessions on 5 transport configurations, with a per-id response counter over the raw output",
-        "claim": "16 envelope kinds x 11 id tokens (incl. 2^53+1, int64 min/max, empty and non-ASCII strings) as single messages; pairs of envelopes with distinct/equal/type-differing ids; every batch composition of <=3 members over {call, unknown-method call, gated call, notification} with every release order of the gated handlers (2025-03-26); two concurrent gated calls in both completion orders; a duplicate in-flight id; a peer cancellation (notifications/cancelled) of an in-flight call, alone, followed by another call, and inside 2025-03-26 batches with every release order (the cancelled call is still answered exactly once and its batch still completes): on the in-memory pipe (stdio framing) and the streamable handler stateful/stateless x SSE/JSON, every call gets exactly one response with the identical id token and the mandated class (result, -32601, -32602, -32600 or an HTTP 4xx pre-validation), notifications get none, and a final ping is still answered",
-        "note": "the legacy HTTP+SSE transport is not driven by this check; messages are single-line JSON; ids outside the listed tokens are outside the bound",
+        "claim": "16 envelope kinds x 11 id tokens (incl. 2^53+1, int64 min/max, empty and non-ASCII strings) as single messages; pairs of envelopes with distinct/equal/type-differing ids; every batch composition of <=3 members over {call, unknown-method call, gated call, notification} with every release order of the gated handlers (2025-03-26); two concurrent gated calls in both completion orders; a duplicate in-flight id; a peer cancellation (notifications/cancelled) of an in-flight call, alone, followed by another call, and inside 2025-03-26 batches with every release order (the cancelled call is still answered exactly once and its batch still completes): on the in-memory pipe (stdio framing), the streamable handler stateful/stateless x SSE/JSON and the legacy HTTP+SSE handler (single messages only), every call gets exactly one response with the identical id token and the mandated class (result, -32601, -32602, -32600 or an HTTP 4xx pre-validation), notifications get none, and a final ping is still answered",
+        "note": "batches are not sent over the legacy HTTP+SSE transport (its POST endpoint accepts one message and answers anything else 400); messages are single-line JSON; ids outside the listed tokens are outside the bound",
         "parts": [
             {"pkg": "mcp", "mode": "plain", "test": "TestVerifC02", "shards": 16},
         ],
